@@ -9,6 +9,7 @@
 //!     * rendezvous runs: a role manager that, called under the crate's read guard, waits until another
 //!       thread is queued in `handle.write()` — the schedule "a writer queued between two reads",
 //!       forced instead of hoped for.
+use crate::ast::{eq, or, Ex};
 use crate::c01::*;
 use crate::enf::{parse_val, E};
 use crate::interp::World;
@@ -50,6 +51,11 @@ pub struct Scenario {
     pub ctx: Option<String>,
     #[serde(default)]
     pub ctx_rows: Vec<String>,
+    /// ... and through a hand-built context (request, policy, effect, matcher section names): serial rows per state
+    #[serde(default)]
+    pub ctx2: Option<Vec<String>>,
+    #[serde(default)]
+    pub ctx2_rows: Vec<String>,
 }
 
 // ---------- the rendezvous role manager ----------
@@ -92,6 +98,12 @@ fn enforce_ref(e: &E, req: &str) -> char {
 
 fn enforce_ctx_ref(e: &E, sfx: &str, req: &str) -> char {
     let r = match e { E::Plain(x) => x.enforce_with_context(casbin::EnforceContext::new(sfx), vals_of(req)), E::Cached(x) => x.enforce_with_context(casbin::EnforceContext::new(sfx), vals_of(req)) };
+    match r { Ok(true) => 't', Ok(false) => 'f', Err(_) => 'e' }
+}
+
+fn enforce_ctx2_ref(e: &E, k: &[String], req: &str) -> char {
+    let mk = || casbin::EnforceContext { r_type: k[0].clone(), p_type: k[1].clone(), e_type: k[2].clone(), m_type: k[3].clone() };
+    let r = match e { E::Plain(x) => x.enforce_with_context(mk(), vals_of(req)), E::Cached(x) => x.enforce_with_context(mk(), vals_of(req)) };
     match r { Ok(true) => 't', Ok(false) => 'f', Err(_) => 'e' }
 }
 
@@ -187,8 +199,11 @@ pub fn child(path: &str) -> i32 {
                         let g = shared.read();
                         let v = ver.load(SeqCst);
                         let e = g.ew.enf.as_ref().unwrap();
-                        let through_ctx = sc.ctx.is_some() && rng.below(2) == 0;
-                        let (d, want) = if through_ctx { (enforce_ctx_ref(e, sc.ctx.as_ref().unwrap(), &sc.reqs[j]), sc.ctx_rows[v].as_bytes()[j] as char) }
+                        let pick = rng.below(4);
+                        let through_ctx2 = sc.ctx2.is_some() && pick == 3;
+                        let through_ctx = (sc.ctx.is_some() && (pick == 1 || pick == 2)) || through_ctx2;
+                        let (d, want) = if through_ctx2 { (enforce_ctx2_ref(e, sc.ctx2.as_ref().unwrap(), &sc.reqs[j]), sc.ctx2_rows[v].as_bytes()[j] as char) }
+                                        else if through_ctx { (enforce_ctx_ref(e, sc.ctx.as_ref().unwrap(), &sc.reqs[j]), sc.ctx_rows[v].as_bytes()[j] as char) }
                                         else { (enforce_ref(e, &sc.reqs[j]), sc.rows[v].as_bytes()[j] as char) };
                         if d != want { mm.lock().push(format!("thread {}: {}({}) = {} in the state after {} writes, serial decision there = {}", ti, if through_ctx { "enforce_with_context" } else { "enforce" }, sc.reqs[j], d, v, want)); }
                         if v < last_v { mm.lock().push(format!("thread {}: state went back from {} to {}", ti, last_v, v)); }
@@ -432,7 +447,7 @@ pub fn run(rec: &mut Recorder, w: &mut World, tier: &str, seed: u64) {
                 // ---- concurrent runs (implementation only) ----
                 let base = Scenario { what: format!("{}{}", name, if cached { "+cached" } else { "" }), setup, history, reqs: req_strs, rows, perms, irows,
                     threads: 2, rounds: if thorough { 30 } else { 10 }, seed: rng.next(), writer: false, handle: "none".into(), helpers: false, rendezvous: false,
-                    users: users.clone(), watchdog_ms: 20000, ctx: None, ctx_rows: vec![] };
+                    users: users.clone(), watchdog_ms: 20000, ctx: None, ctx_rows: vec![], ctx2: None, ctx2_rows: vec![] };
                 let mut variants: Vec<Scenario> = vec![];
                 let th = thread_counts[si % thread_counts.len()];
                 variants.push(Scenario { threads: th, ..base.clone() });                                                       // readers only
@@ -463,6 +478,9 @@ pub fn run(rec: &mut Recorder, w: &mut World, tier: &str, seed: u64) {
         let mut m = model_of(&rb, E_ALLOW, false, "", false);
         let b2 = model_of(&acl, E_ALLOW, false, "2", false);
         m.r.extend(b2.r); m.p.extend(b2.p); m.e.extend(b2.e); m.m.extend(b2.m);
+        // a third matcher, reachable only through a hand-built context that differs from EnforceContext::new("2") in nothing
+        // but the matcher: the second section's matcher, or the subject is bob
+        { let r = |i| Ex::R(i); let sup = or(acl.m.clone(), eq(r(0), Ex::LitS("bob".into()))); m.m.push(("m3".into(), sup.sexpr(), sup.text("r2", &acl.rt, "p2", &acl.pt))); }
         rec.begin();
         rec.exec(w, &format!("e.cached\t{}", cached));
         let rules: Vec<Vec<String>> = (0..3 + rng.below(3)).map(|_| gen_rule(&mut rng, &rb, false)).collect();
@@ -478,6 +496,7 @@ pub fn run(rec: &mut Recorder, w: &mut World, tier: &str, seed: u64) {
         let req_strs: Vec<String> = reqs.iter().map(|r| if r.is_empty() { "|".to_string() } else { r.join(",") }).collect();
         let mut rows = vec![rec.exec(w, &format!("e.enfs\t{}", enc_reqs(&reqs)))];
         let mut ctx_rows = vec![rec.exec(w, &format!("e.enfcs\t2\t{}", enc_reqs(&reqs)))];
+        let mut ctx2_rows = vec![rec.exec(w, &format!("e.enfx\tr2\tp2\te2\tm3\t{}", enc_reqs(&reqs)))];
         let mut history = vec![];
         for _ in 0..4 + rng.below(6) {
             let op = match rng.below(5) { 0 | 1 => MOp::Add("p".into(), "p".into(), gen_rule(&mut rng, &rb, false)), 2 | 3 => MOp::Add("p".into(), "p2".into(), gen_rule(&mut rng, &acl, false)),
@@ -485,12 +504,13 @@ pub fn run(rec: &mut Recorder, w: &mut World, tier: &str, seed: u64) {
             rec.exec(w, &op.line()); history.push(op.line());
             rows.push(rec.exec(w, &format!("e.enfs\t{}", enc_reqs(&reqs))));
             ctx_rows.push(rec.exec(w, &format!("e.enfcs\t2\t{}", enc_reqs(&reqs))));
+            ctx2_rows.push(rec.exec(w, &format!("e.enfx\tr2\tp2\te2\tm3\t{}", enc_reqs(&reqs))));
         }
         if rows[0] == ctx_rows[0] { rec.count("sections:identical-rows"); }
         let th = thread_counts[si % thread_counts.len()].max(4);
         let base = Scenario { what: format!("two-sections{}", if cached { "+cached" } else { "" }), setup, history, reqs: req_strs, rows, perms: vec![], irows: vec![],
             threads: th, rounds: if thorough { 60 } else { 25 }, seed: rng.next(), writer: false, handle: "none".into(), helpers: false, rendezvous: false,
-            users: vec![], watchdog_ms: 20000, ctx: Some("2".into()), ctx_rows };
+            users: vec![], watchdog_ms: 20000, ctx: Some("2".into()), ctx_rows, ctx2: Some(sv(&["r2", "p2", "e2", "m3"])), ctx2_rows };
         for v in [base.clone(), Scenario { writer: true, handle: "read".into(), ..base.clone() }] {
             if rec.hist.get("spec_failure:deadlock").copied().unwrap_or(0) >= 2 { continue; }
             let label = format!("{} threads={} writer={} (enforce mixed with enforce_with_context(2))", v.what, v.threads, v.writer);
@@ -523,7 +543,7 @@ pub fn run(rec: &mut Recorder, w: &mut World, tier: &str, seed: u64) {
         for ch in reqs.chunks(100) { row.push_str(&rec.exec(w, &format!("e.enfs\t{}", enc_reqs(ch)))); }
         let sc = Scenario { what: "many-requests+cached".into(), setup, history: vec![], reqs: req_strs, rows: vec![row], perms: vec![], irows: vec![],
             threads: if thorough { 16 } else { 8 }, rounds: if thorough { 200 } else { 50 }, seed: rng.next(), writer: false, handle: "none".into(), helpers: false, rendezvous: false,
-            users: vec![], watchdog_ms: 60000, ctx: None, ctx_rows: vec![] };
+            users: vec![], watchdog_ms: 60000, ctx: None, ctx_rows: vec![], ctx2: None, ctx2_rows: vec![] };
         let label = format!("{} threads={} distinct requests={} run {}", sc.what, sc.threads, sc.reqs.len(), si);
         let out = rec.exec_impl_only(w, &format!("conc.run\t{}", esc(&serde_json::to_string(&sc).unwrap())));
         rec.count(&format!("run:many-requests:{}", out.split(|c| c == ':' || c == ' ').next().unwrap_or("")));
@@ -563,7 +583,7 @@ pub fn run(rec: &mut Recorder, w: &mut World, tier: &str, seed: u64) {
         rec.count_n("domain-matching:serial-grants", row.bytes().filter(|&c| c == b't').count() as u64);
         let sc = Scenario { what: "domain-matching-function".into(), setup, history: vec![], reqs: req_strs, rows: vec![row], perms: vec![], irows: vec![],
             threads: if thorough { 16 } else { 8 }, rounds: if thorough { 120 } else { 40 }, seed: rng.next(), writer: false, handle: "none".into(), helpers: false, rendezvous: false,
-            users: vec![], watchdog_ms: 60000, ctx: None, ctx_rows: vec![] };
+            users: vec![], watchdog_ms: 60000, ctx: None, ctx_rows: vec![], ctx2: None, ctx2_rows: vec![] };
         let label = format!("{} threads={} distinct requests={} run {}", sc.what, sc.threads, sc.reqs.len(), si);
         let out = rec.exec_impl_only(w, &format!("conc.run\t{}", esc(&serde_json::to_string(&sc).unwrap())));
         rec.count(&format!("run:domain-matching:{}", out.split(|c| c == ':' || c == ' ').next().unwrap_or("")));
